@@ -151,10 +151,23 @@ Qed.
 Lemma list_eqb_nil_false (l : list N) : list_eqb l [] = false -> l <> [].
 Proof. intros H ->. discriminate H. Qed.
 
-Theorem related_corr u su :
-  related dbg shs u su -> parse_extra u su -> corr dbg shs u su.
+(* the part of parse_extra that the relation corr needs (px_nohost is used for `sane` only; it is false of
+   "file:///p", whose record is special and has "//" without host) *)
+Record parse_extra0 (u : url) (su : spec_url) : Prop := mk_px0 {
+  px0_ht : host_text_ok u;
+  px0_uclean : forall un, username dbg u = Some un -> clean T_USERINFO un = true;
+  px0_port : match su_port su with Some p => p <= 65535 | None => True end;
+  px0_range : match su_host su with Some h => h = SEmpty \/ shs h <> [] | None => True end;
+  px0_empty : shs SEmpty = []
+}.
+
+Lemma parse_extra_0 u su : parse_extra u su -> parse_extra0 u su.
+Proof. intros [XT XU XN XP XR XE]. constructor; assumption. Qed.
+
+Theorem related_corr0 u su :
+  related dbg shs u su -> parse_extra0 u su -> corr dbg shs u su.
 Proof.
-  intros [W Hapi Hbf Hbq Hcbb Hsch Hval] [XT XU XN XP XR XE].
+  intros [W Hapi Hbf Hbq Hcbb Hsch Hval] [XT XU XP XR XE].
   destruct (accessors_reconcatenate dbg u W)
     as (sch & un & pw & hs & pth & q & f & Es & Eun & Epw & Ehs & Ept & Eq & Ef & Eser & Hh1 & Hh0).
   rewrite (api_by_accessors dbg u W _ _ _ _ _ _ _ Es Eun Epw Ehs Ept Eq Ef) in Hapi.
@@ -275,6 +288,10 @@ Proof.
     + rewrite (cannot_be_a_base_eval u W) in Hcbb. injection Hcbb as Hcbb. exact Hcbb.
     + apply XU. exact Eun.
 Qed.
+
+Theorem related_corr u su :
+  related dbg shs u su -> parse_extra u su -> corr dbg shs u su.
+Proof. intros R X. exact (related_corr0 u su R (parse_extra_0 u su X)). Qed.
 
 (* ... and the invariants `sane` of the Standard's record: for a record whose scheme is not "file" and which,
    when special, has a host (base_shape_ok of Proofs/C01_EqShape.v) *)
